@@ -429,7 +429,7 @@ impl Check for C11 {
         };
         let mut queries = vec![];
         for (i, (name, _)) in case.roots.iter().enumerate() {
-            queries.push(json!({"q":"validateMany","parser":name,"values": case.values[i].iter().map(|(v,_)| v.to_tagged()).collect::<Vec<_>>(), "optsList":[null, {"strict": true}], "sameObject": true}));
+            queries.push(json!({"q":"validateMany","parser":name,"values": case.values[i].iter().map(|(v,_)| v.to_tagged()).collect::<Vec<_>>(), "optsList":[null, {"strict": true}], "sameObject": true, "entryPoints": true}));
         }
         let resp = match node_case(ctx, Some(&code), queries) {
             Ok(r) => r,
@@ -457,6 +457,20 @@ impl Check for C11 {
                         "c11_answer_depends_on_earlier_calls",
                         format!("{}: the same object validated under default and strict options in turn gets another answer than a fresh copy does ({})", name, first),
                         json!({"program": case.program, "parser": name, "value": case.values[i].get(vi).map(|x| &x.0), "detail": first}),
+                    );
+                }
+            }
+            if let Some(first) = resp["results"][i]["entry"].as_array().and_then(|a| a.first()) {
+                let vi = first["value"].as_u64().unwrap_or(0) as usize;
+                let v = case.values[i].get(vi).map(|x| &x.0);
+                // (inputs that make the error path overflow or throw are C03's and C12's listed findings)
+                let hostile = v.map(|v| v.has_cycle()).unwrap_or(false) || first["safeParse"] == json!("T");
+                if !hostile {
+                    out.mismatch(
+                        ctx,
+                        "c11_entry_points_disagree",
+                        format!("{}: validate, safeParse and parse do not give the same verdict under the same options ({}; option set 1 = disallowExtraProperties)", name, first),
+                        json!({"program": case.program, "parser": name, "value": v, "detail": first}),
                     );
                 }
             }
